@@ -281,7 +281,10 @@ var (
 func init() {
 	qNodes = []*node.Node{mustNode("/u", "a"), mustNode("/u", "b"), mustNode("/u", "c"), mustNode("/t", "a")}
 	qPreds = []*predicate.Predicate{mustImm("p"), mustImm("q"), mustTmp("p", qt0), mustTmp("p", qt1), mustTmp("q", qt0),
-		mustTmp("q", qt2), mustTmp("p", qt0.In(time.FixedZone("", 3600)))}
+		mustTmp("q", qt2), mustTmp("p", qt0.In(time.FixedZone("", 3600))),
+		// the same second with and without a fraction (05:06:07+02:00, 05:06:07.000000008+02:00, 05:06:07.5+02:00): the
+		// printed forms are not of one width, so their text order is not their order in time
+		mustTmp("q", qt2.Truncate(time.Second)), mustTmp("q", qt2.Truncate(time.Second).Add(500*time.Millisecond))}
 	for _, n := range qNodes {
 		qObjs = append(qObjs, triple.NewNodeObject(n))
 	}
@@ -668,7 +671,8 @@ func (q *qgen) queryText(graphs []string) string {
 		// anchors against time constants written to the nanosecond, in several zones
 		id := []string{"p", "q"}[r.intn(2)]
 		tm := []time.Time{qt0, qt1, qt2, qt2.Add(-8 * time.Nanosecond), qt2.Add(time.Nanosecond), qt0.In(time.FixedZone("", -5*3600)),
-			qt1.Add(500 * time.Millisecond)}[r.intn(7)]
+			qt1.Add(500 * time.Millisecond), qt2.Truncate(time.Second), qt2.Truncate(time.Second).Add(500 * time.Millisecond),
+			qt2.Truncate(time.Second).Add(500 * time.Millisecond)}[r.intn(10)]
 		op := []string{"=", "<", ">"}[r.intn(3)]
 		neg := ""
 		if r.chance(1, 4) {
@@ -926,7 +930,7 @@ func (q *qgen) havingExpr(outs []string, depth int) string {
 		case 5:
 			return fmt.Sprintf("%s = %s", b, qNodes[r.intn(len(qNodes))])
 		case 6:
-			return fmt.Sprintf("%s %s %s", b, op, fmtT([]time.Time{qt0, qt1, qt2}[r.intn(3)]))
+			return fmt.Sprintf("%s %s %s", b, op, fmtT([]time.Time{qt0, qt1, qt2, qt2.Truncate(time.Second), qt2.Truncate(time.Second).Add(500 * time.Millisecond)}[r.intn(5)]))
 		case 7:
 			return fmt.Sprintf("%s = %s", b, qPreds[r.intn(len(qPreds))])
 		default:
@@ -994,6 +998,20 @@ func cmdQuery(args []string) error {
 			seen[t.String()] = true
 			g.define(t)
 		}
+		// grouping values whose printed forms run into each other when they are strung together: IDs holding the
+		// separator a composite group key might be built with ("a;b","c" against "a","b;c")
+		sepScenario := strings.Contains(*mode, "group") && r.chance(1, 5)
+		if sepScenario {
+			for _, x := range [][3]string{{"a;b", "p", "c"}, {"a", "p", "b;c"}, {"a", "q", "b;c"}, {"a;b", "q", "c"}, {"a", "q", "b"},
+				{"ab", "p", "c"}, {"a", "p", "bc"}, {"ab", "q", "c"}, {"1:a", "p", "b"}, {"1", "p", "a;1:b"}} {
+				pr := mustImm(x[1])
+				t, _ := triple.New(mustNode("/u", x[0]), pr, triple.NewNodeObject(mustNode("/u", x[2])))
+				if !seen[t.String()] {
+					seen[t.String()] = true
+					g.define(t)
+				}
+			}
+		}
 		ng := 1 + r.intn(3)
 		overlap := false
 		used := map[string]int{}
@@ -1019,6 +1037,13 @@ func cmdQuery(args []string) error {
 				q.mode = ms[r.intn(len(ms))] // "order+limit": each statement in one of the modes
 			}
 			text := q.queryText(names[:nfrom])
+			if sepScenario && k < 2 {
+				// two grouping columns of plain strings (extracted IDs), counted and summed over
+				text = fmt.Sprintf("select ?sid, ?oid, count(?p) as ?n, count(distinct ?p) as ?d from %s where { ?s id ?sid ?p ?o id ?oid } group by %s;",
+					strings.Join(names[:nfrom], ", "), []string{"?sid, ?oid", "?oid, ?sid"}[k])
+				q.intent = ""
+				q.hist["string-keys-with-separator"]++
+			}
 			// overlap only matters among the graphs actually listed
 			ov := false
 			if overlap {
